@@ -6,6 +6,7 @@ import (
 	"io"
 	"os"
 	"path/filepath"
+	"strconv"
 	"strings"
 
 	"github.com/zerx-lab/wordZero/pkg/document"
@@ -133,6 +134,14 @@ func startLabels(st *Start) []string {
 			add("multi-section:ten-or-more-sections")
 		}
 	}
+	if st.sparse(false) || st.sparse(true) {
+		add("part-numbers-with-gaps")
+	}
+	for _, k := range allKeys {
+		if _, ok := st.slot(k); !ok && st.occupied(libPart(k)) {
+			add("library-name-of-a-missing-kind-is-taken")
+		}
+	}
 	nh, nf := 0, 0
 	for _, s := range st.Slots {
 		if s.Footer {
@@ -205,5 +214,51 @@ func noteForeignDef(res *kit.Result, st *Start, k key, nBefore int) {
 	}
 	if nBefore == 0 {
 		res.Label("foreign-start:define-missing-kind")
+		if st.occupied(libPart(k)) {
+			res.Label("foreign-start:define-missing-kind:library-name-taken")
+			if st.sparse(k.Footer) {
+				res.Label("foreign-start:define-missing-kind:library-name-taken:part-numbers-with-gaps")
+			}
+		}
 	}
+}
+
+// occupied says whether a part of the opened package carries the name (below word/).
+func (st *Start) occupied(part string) bool {
+	for _, s := range st.Slots {
+		if s.Part == part {
+			return true
+		}
+	}
+	return false
+}
+
+// numbered returns N for a part named header<N>.xml / footer<N>.xml directly below word/ (0 otherwise).
+func (s StartSlot) numbered() int {
+	what := "header"
+	if s.Footer {
+		what = "footer"
+	}
+	if !strings.HasPrefix(s.Part, what) || !strings.HasSuffix(s.Part, ".xml") {
+		return 0
+	}
+	n, err := strconv.Atoi(s.Part[len(what) : len(s.Part)-4])
+	if err != nil || n < 1 {
+		return 0
+	}
+	return n
+}
+
+// sparse says whether the numbered parts of one side leave a number below the highest one unused.
+func (st *Start) sparse(footer bool) bool {
+	max, cnt := 0, 0
+	for _, s := range st.Slots {
+		if n := s.numbered(); s.Footer == footer && n > 0 {
+			cnt++
+			if n > max {
+				max = n
+			}
+		}
+	}
+	return cnt > 0 && max > cnt
 }
